@@ -6,7 +6,7 @@ ASSOC = {'none': 'associativity::no_assoc', 'ltor': 'associativity::ltor', 'rtol
 
 def cxx_str(s): return '"' + s.replace('\\', '\\\\').replace('"', '\\"') + '"'
 
-def grammar_cpp(g, lexer='tok', ctx=None, ns='g', limits=None):
+def grammar_cpp(g, lexer='tok', ctx=None, ns='g', limits=None, lexer_type=None):
     """C++ definition of the grammar as a constexpr ctpg::parser named <ns>::p.
        lexer: 'tok' (custom token-level lexer over custom_terms)"""
     o = ['namespace %s {' % ns]
@@ -37,43 +37,64 @@ def grammar_cpp(g, lexer='tok', ctx=None, ns='g', limits=None):
         elif f in ('e1', 'e2', 'e3'): rs.append('%s >= _%s' % (head, f))
         else: raise Exception(f)
     lim = (', %s{}' % limits) if limits else ''
-    o.append('constexpr parser p(N_%d, terms(%s), nterms(%s), rules(\n  %s\n), use_lexer<hv::tok_lexer<%d>>{}%s);' % (
-        g.nterms.index(g.root), ', '.join('T_%d' % i for i in range(g.nt)), ', '.join('N_%d' % i for i in range(len(g.nterms))), ',\n  '.join(rs), g.nt, lim))
+    o.append('constexpr parser p(N_%d, terms(%s), nterms(%s), rules(\n  %s\n), use_lexer<%s>{}%s);' % (
+        g.nterms.index(g.root), ', '.join('T_%d' % i for i in range(g.nt)), ', '.join('N_%d' % i for i in range(len(g.nterms))), ',\n  '.join(rs), lexer_type or ('hv::tok_lexer<%d>' % g.nt), lim))
     o.append('}')
     return '\n'.join(o)
 
 def hash_error_note(): pass
 
-def parse_wrapper_cpp(g, ns='g'):
-    """wrapper: h_run(in[LEN], opts, out[O_SIZE]);  opts bit0 skip_whitespace, bit1 skip_newline, bit2 verbose"""
-    return '''#include "hv.h"
-using namespace ctpg; using namespace ctpg::buffers; using namespace ctpg::ftors;
-hv::state hv::hv_S;
-%s
-extern "C" __attribute__((noinline)) void h_run(const uint8_t* in, uint32_t opts, uint32_t* out)
-{
-    char b[LEN + 1];
-    for (int i = 0; i < LEN; i++) b[i] = (char)in[i];
-    b[LEN] = 0;
-    hv::reset();
-#ifdef HASHLOG
-    hv::hrec s;
-#else
-    hv::rec s;
-#endif
-    s.names = %s::p.term_names; s.nnames = %d;
-    parse_options o;
-#ifdef OPT_SYMBOLIC
-    o.set_skip_whitespace((opts & 1u) != 0).set_skip_newline((opts & 2u) != 0).set_verbose((opts & 4u) != 0);
-#else
-    o.set_skip_whitespace(OPT_WS != 0).set_skip_newline(OPT_NL != 0).set_verbose(OPT_VERBOSE != 0);
-#endif
-    auto r = %s::p.parse(o, cstring_buffer<LEN + 1>(b), s);
-    out[O_OK] = r.has_value() ? 1u : 0u;
-    out[O_VALUE] = r.has_value() ? *r : 0u;
-    s.flush(out); hv::flush(out);
-}
-''' % (grammar_cpp(g, ns=ns), ns, g.term_count, ns)
+def parse_wrapper_cpp(g, ns='g', variant='plain', ctxkind=0):
+    """wrapper: h_run(in[LEN], opts, out[O_SIZE]).  Options are compile-time constants OPT_WS/OPT_NL/OPT_VERBOSE unless OPT_SYMBOLIC.
+       variant 'plain' | 'dual' (second run with no stream and verbose off: C16) | 'ctx' (context_parse, C13) | 'anslex' (custom lexer with harness answers, C18)"""
+    lexer_type = 'hv::ans_lexer' if variant == 'anslex' else None
+    head = ('#include "hv.h"\n'
+            'using namespace ctpg; using namespace ctpg::buffers; using namespace ctpg::ftors;\n'
+            'hv::state hv::hv_S; const void* hv::hv_ctx_addr = nullptr; unsigned hv::hv_ctx_tag = 0; hv::lex_state hv::hv_L;\n')
+    ctxp = {0: 'hv::ctx_t&', 1: 'const hv::ctx_t&', 2: 'hv::ctx_t', 3: 'hv::mo_ctx&&', 4: 'hv::ctx_t&'}[ctxkind]
+    head += '#define HV_CTX_PARAM %s\n' % ctxp
+    head += grammar_cpp(g, ns=ns, lexer_type=lexer_type) + '\n'
+    setup = ('    char b[LEN + 1];\n'
+             '    for (int i = 0; i < LEN; i++) b[i] = (char)in[i];\n'
+             '    b[LEN] = 0;\n'
+             '    hv::reset();\n'
+             '#ifdef HASHLOG\n    hv::hrec s;\n#else\n    hv::rec s;\n#endif\n'
+             '    s.names = %s::p.term_names; s.nnames = %d;\n'
+             '    parse_options o;\n'
+             '#ifdef OPT_SYMBOLIC\n'
+             '    o.set_skip_whitespace((opts & 1u) != 0).set_skip_newline((opts & 2u) != 0).set_verbose((opts & 4u) != 0);\n'
+             '#else\n'
+             '    o.set_skip_whitespace(OPT_WS != 0).set_skip_newline(OPT_NL != 0).set_verbose(OPT_VERBOSE != 0);\n'
+             '#endif\n') % (ns, g.term_count)
+    fin = ('    out[O_OK] = r.has_value() ? 1u : 0u;\n'
+           '    out[O_VALUE] = r.has_value() ? *r : 0u;\n'
+           '    s.flush(out); hv::flush(out);\n')
+    alt = ('        out[O_ALT_OK] = r0.has_value() ? 1u : 0u; out[O_ALT_VALUE] = r0.has_value() ? *r0 : 0u; out[O_ALT_NRED] = hv::hv_S.nred;\n'
+           '        hv::reset();\n')
+    sig = 'const uint8_t* in, uint32_t opts, uint32_t* out'
+    if variant == 'plain':
+        body = setup + '    auto r = %s::p.parse(o, cstring_buffer<LEN + 1>(b), s);\n' % ns + fin
+    elif variant == 'dual':
+        body = setup + ('    {   // first run: no error stream at all, verbose off\n'
+                        '        utils::no_stream ns0; parse_options o0 = o; o0.set_verbose(false);\n'
+                        '        auto r0 = %s::p.parse(o0, cstring_buffer<LEN + 1>(b), ns0);\n' % ns) + alt + '    }\n' + '    auto r = %s::p.parse(o, cstring_buffer<LEN + 1>(b), s);\n' % ns + fin
+    elif variant == 'ctx':
+        mk = {0: 'hv::ctx_t cx; cx.tag = tag;', 1: 'hv::ctx_t cx0; cx0.tag = tag; const hv::ctx_t& cx = cx0;', 2: 'hv::ctx_t cx; cx.tag = tag;', 3: 'hv::mo_ctx cx; cx.tag = tag;', 4: 'hv::ctx_t cx; cx.tag = tag;'}[ctxkind]
+        passx = {0: 'cx', 1: 'cx', 2: 'hv::ctx_t(cx)', 3: 'std::move(cx)', 4: 'cx'}[ctxkind]
+        body = setup + '    unsigned tag = opts >> 8;\n    ' + mk + '\n    hv::hv_ctx_tag = tag; hv::hv_ctx_addr = %s;\n' % ('nullptr' if ctxkind == 2 else '(const void*)&cx')
+        if ctxkind == 4:
+            body += ('    {   // the same input through parse(): a grammar that ignores the context must give the same result\n'
+                     '        utils::no_stream ns0;\n'
+                     '        auto r0 = %s::p.parse(o, cstring_buffer<LEN + 1>(b), ns0);\n' % ns) + alt + '    }\n'
+        body += '    auto r = %s::p.context_parse(%s, o, cstring_buffer<LEN + 1>(b), s);\n    out[O_CTX] = cx.counter;\n' % (ns, passx) + fin
+    elif variant == 'anslex':
+        body = setup + ('    cstring_buffer<LEN + 1> buf(b);\n'
+                        '    hv::hv_L = hv::lex_state{}; hv::hv_L.base = buf.begin().ptr;\n'
+                        '    for (int i = 0; i < LEN && i < LEXMAX; i++) { hv::hv_L.idx[i] = ans_idx[i]; hv::hv_L.len[i] = ans_len[i]; }\n'
+                        '    auto r = %s::p.parse(o, buf, s);\n'
+                        '    out[O_LEXHASH] = hv::hv_L.hash; out[O_LEXCALLS] = hv::hv_L.calls; if (hv::hv_L.bad) out[O_FLAGS] |= 16u;\n') % ns + fin
+        sig = 'const uint8_t* in, uint32_t opts, uint32_t* out, const uint16_t* ans_idx, const uint8_t* ans_len'
+    return head + 'extern "C" __attribute__((noinline)) void h_run(%s)\n{\n%s}\n' % (sig, body)
 
 TOK_LEX = '''static int ref_lex(const uint8_t* in, unsigned n, unsigned pos, unsigned* term, unsigned* len) {
   uint8_t c = in[pos];
@@ -82,36 +103,54 @@ TOK_LEX = '''static int ref_lex(const uint8_t* in, unsigned n, unsigned pos, uns
 }
 '''
 
-def parse_harness_c(unit_c, tables, body, extra_decl=''):
+ANS_LEX = """static uint16_t ANS_IDX[LEN ? LEN : 1]; static uint8_t ANS_LEN[LEN ? LEN : 1];
+static uint32_t ref_lexhash, ref_lexcalls;
+static int ref_lex(const uint8_t* in, unsigned n, unsigned pos, unsigned* term, unsigned* len) {
+  ref_lexcalls++; ref_lexhash = ((ref_lexhash << 5) | (ref_lexhash >> 27)) + pos + 0x9e3779b9u;
+  if (ANS_IDX[pos] == 0xffffu) return 0;
+  *term = ANS_IDX[pos]; *len = ANS_LEN[pos]; return 1;
+}
+"""
+
+def parse_harness_c(unit_c, tables, body, extra_decl='', variant='plain'):
     """common harness text. `body` = oracle calls (C statements using OUT and R)."""
-    return '''#ifdef USE_REAL
+    anslex = variant == 'anslex'
+    d = {'unit_c': unit_c, 'tables': tables, 'lex': ANS_LEX if anslex else TOK_LEX, 'extra_decl': extra_decl, 'body': body,
+         'xproto': ', const uint16_t* ans_idx, const uint8_t* ans_len' if anslex else '',
+         'xargs': ', ANS_IDX, ANS_LEN' if anslex else '',
+         'xnondet': ('  for (int i = 0; i < LEN; i++) { ANS_IDX[i] = nondet_ushort(); ANS_LEN[i] = nondet_uchar();\n'
+                     '    /* documented contract: a term index of terms(...) or the default-constructed failure value; 1 <= len <= remaining input */\n'
+                     '    __CPROVER_assume(ANS_IDX[i] < REF_NT || ANS_IDX[i] == 0xffffu); __CPROVER_assume(ANS_LEN[i] >= 1 && ANS_LEN[i] <= LEN - i); }\n') if anslex else '',
+         'xparse': ('  if (argc > 3) { const char* p = argv[3]; for (int i = 0; i < LEN && *p; i++) { ANS_IDX[i] = (uint16_t)strtoul(p, (char**)&p, 0); if (*p == \',\') p++; } }\n'
+                    '  if (argc > 4) { const char* p = argv[4]; for (int i = 0; i < LEN && *p; i++) { ANS_LEN[i] = (uint8_t)strtoul(p, (char**)&p, 0); if (*p == \',\') p++; } }\n') if anslex else ''}
+    return """#ifdef USE_REAL
 #include <stdint.h>
 #include <string.h>
-void h_run_guard(const uint8_t* in, uint32_t opts, uint32_t* out);
+void h_run_guard(const uint8_t* in, uint32_t opts, uint32_t* out%(xproto)s);
 #define RUN h_run_guard
 int exc_pending = 0;
 #else
-#include "%s"
+#include "%(unit_c)s"
 #define RUN g_h_run
 #endif
 #include "rt.h"
-%s
-%s
+%(tables)s
+%(lex)s
 #include "ref_lr.h"
-%s
+%(extra_decl)s
 uint8_t IN[LEN ? LEN : 1]; uint32_t OPTS; uint32_t OUT[O_SIZE];
 static void oracle(void) {
   struct ref_out R;
   ref_parse(IN, LEN, OPTS & 1u, (OPTS >> 1) & 1u, (OPTS >> 2) & 1u, &R);
   ora_machinery(OUT, &R);
-%s
+%(body)s
 }
 #ifdef __CPROVER__
-uint8_t nondet_uchar(void); uint32_t nondet_uint(void);
+uint8_t nondet_uchar(void); uint32_t nondet_uint(void); uint16_t nondet_ushort(void);
 void harness(void) {
   for (int i = 0; i < LEN; i++) IN[i] = nondet_uchar();
   OPTS = (nondet_uint() & OPT_MASK) | OPT_FIXED;
-#ifdef IN_ASSUME
+%(xnondet)s#ifdef IN_ASSUME
   __CPROVER_assume(IN_ASSUME);
 #endif
 #ifdef KNOWN_EXCLUDE
@@ -120,7 +159,7 @@ void harness(void) {
 #ifdef KNOWN_ONLY
   __CPROVER_assume(KNOWN_ONLY);      /* confirmation query for one listed finding */
 #endif
-  RUN(IN, OPTS, OUT);
+  RUN(IN, OPTS, OUT%(xargs)s);
   if (exc_pending) OUT[O_THROWN] = 1;
   oracle();
 }
@@ -128,11 +167,11 @@ void harness(void) {
 #include <stdio.h>
 #include <stdlib.h>
 int main(int argc, char** argv) {
-  /* argv[1] = hex input bytes (exactly LEN), argv[2] = opts */
+  /* argv[1] = hex input bytes (exactly LEN), argv[2] = opts, further arguments: harness specific */
   const char* h = argc > 1 ? argv[1] : "";
   for (int i = 0; i < LEN; i++) { unsigned v = 0; if (h[2*i] && h[2*i+1]) sscanf(h + 2*i, "%%2x", &v); IN[i] = (uint8_t)v; }
   OPTS = argc > 2 ? (uint32_t)strtoul(argv[2], 0, 0) : 0;
-  RUN(IN, OPTS, OUT);
+%(xparse)s  RUN(IN, OPTS, OUT%(xargs)s);
   if (exc_pending) OUT[O_THROWN] = 1;
   oracle();
   printf("OUT");
@@ -141,7 +180,20 @@ int main(int argc, char** argv) {
   return 0;
 }
 #endif
-''' % (unit_c, tables, TOK_LEX, extra_decl, body)
+""" % d
+
+def native_shim_cpp(variant='plain'):
+    x = ', const uint16_t* ans_idx, const uint8_t* ans_len' if variant == 'anslex' else ''
+    xa = ', ans_idx, ans_len' if variant == 'anslex' else ''
+    return """// native driver shim: catches exceptions escaping the wrapper (the translated C models them with exc_pending)
+#include <cstdint>
+#include <exception>
+extern "C" void h_run(const uint8_t* in, uint32_t opts, uint32_t* out%s);
+extern "C" int exc_pending;
+extern "C" void h_run_guard(const uint8_t* in, uint32_t opts, uint32_t* out%s) {
+  try { h_run(in, opts, out%s); } catch (...) { exc_pending = 1; }
+}
+""" % (x, x, xa)
 
 NATIVE_SHIM_CPP = '''// native driver shim: catches exceptions escaping the wrapper (the translated C models them with exc_pending)
 #include <cstdint>
